@@ -224,8 +224,14 @@ def name_step(line):
                     c = Client(name="x", namespace=d(t[1]))
                     k = d(t[2])
                     a = Blackboard.absolute_name(object.__getattribute__(c, "namespace"), k)
-                    out = [res(lambda: c.register_key(key=k, access=W)), res(lambda: setattr(c, k, 7)),
-                           res(lambda: getattr(c, k)), res(lambda: c.get(a)), res(lambda: Blackboard.get(a))]
+                    out = [res(lambda: c.register_key(key=k, access=Access.EXCLUSIVE_WRITE))]
+                    res(lambda: c.register_key(key=k + "/s", access=W))      # k is now also a namespace of the client
+                    out += [res(lambda: setattr(c, k, 7)),
+                            res(lambda: getattr(c, k)), res(lambda: c.get(a)), res(lambda: Blackboard.get(a))]
+                    try:
+                        out.append(str(c.absolute_name(k)))
+                    except Exception as e:  # noqa: B902
+                        out.append(err_kind(e))
                     return "R " + "|".join(out)
                 if t[0] == "cshare":
                     Blackboard.clear()
